@@ -15,7 +15,7 @@ ANCHORS = ['mpilot/libraries/eems/fuzzy.py:FuzzyOr.execute', 'mpilot/libraries/e
 LEVEL = "exploration"
 RULE = ("operator x parameter x input-order x layout cases; n<=3 inputs enumerate the complete 18^n value/missing lattice as "
         "array cells, n=4,5 sample cell tuples; a case is distinct by (operator, n, params, layout rank, order class)")
-REQUIRED_COUNTERS = ["ref_postconditions", "law_checks", "cells_compared", "repeated_field_cases", "mixed_dtype_cases"]
+REQUIRED_COUNTERS = ["ref_postconditions", "law_checks", "cells_compared", "repeated_field_cases", "mixed_dtype_cases", "saturated_field_cases"]
 EXHAUSTIVE_NOTE = "complete {17 fuzzy values + missing}^n lattice for n = 1, 2, 3 in both tiers"
 ASSUMPTIONS = ["reference models in mpv/ref.py (exact rationals) are the EEMS definitions as stated in the property",
                "numpy masked-array primitives are trusted", "FuzzyXOr with one input, k outside 1..n and zero weight sums are don't-care"]
@@ -106,6 +106,13 @@ def cases(ctx):
         rng.shuffle(order)
         ps = param_sets(rng, op, n, ctx.quick)
         yield {"kind": "sampled", "n": n, "op": op, "params": rng.choice(ps), "shape": [400], "order": order, "count": 400, "rseed": rng.randrange(10 ** 9), "dtypes": dts}
+    # a field that is fully true (or fully false) everywhere, listed before fields with missing cells
+    for r in range(ctx.n(24, 1000)):
+        n = rng.choice([2, 3, 4])
+        op = rng.choice(["FuzzyOr", "FuzzyAnd", "FuzzyOr", "FuzzyAnd", "FuzzyUnion", "FuzzySelectedUnion", "FuzzyXOr"])
+        ps = param_sets(rng, op, n, ctx.quick)
+        yield {"kind": "sampled", "n": n, "op": op, "params": rng.choice(ps), "shape": [300], "order": list(range(n)), "count": 300, "rseed": rng.randrange(10 ** 9),
+               "saturate": rng.choice([1.0, -1.0]), "saturate_pos": rng.randrange(n)}
     # sampled n = 4, 5
     reps = ctx.n(24, 400)
     count = 1500 if ctx.quick else 20000
@@ -126,6 +133,8 @@ def _columns(case):
     if case["kind"] == "sampled":
         import random
         cols = sampled_columns(random.Random(case["rseed"]), case["n"], case["count"])
+        if case.get("saturate") is not None:
+            cols[case["saturate_pos"]] = [case["saturate"]] * case["count"]
         for k, dt in enumerate(case.get("dtypes") or []):
             if dt.startswith("int"):     # crisp fields: fully false / undetermined / fully true
                 cols[k] = [None if v is None else float(round(v)) for v in cols[k]]
@@ -217,8 +226,28 @@ def run_case(ctx, case):
                 ctx.fail("%s:order-dependent:%s" % (op, rk), {"order": order, "n": n, "params": params})
         else:
             ctx.fail("%s:order-dependent-outcome:%s" % (op, rk), {"order": order, "error": repr(base.exc)[:200]})
+    if case.get("saturate") is not None:
+        ctx.count("saturated_field_cases")
     if order == sorted(order) and len(shape) == 1 and not refs and not dtypes:
         _laws(ctx, case, op, n, params, cols, inputs, res, shape)
+    if n >= 2:
+        # other operators on the same fields, then the operator again
+        for other in ("FuzzyXOr", "FuzzySelectedUnion"):
+            _call(other, inputs, {"TruestOrFalsest": "Truest", "NumberToConsider": 1} if other == "FuzzySelectedUnion" else {})
+        _reevaluate(ctx, op, inputs, oparams, refs, res, rk)
+
+
+def _reevaluate(ctx, op, inputs, oparams, refs, first, rk):
+    """The same operator on the same input objects again, after everything else ran on them: identical result
+    (an operator that alters its inputs - values or missing cells - shows here)."""
+    again = _call(op, inputs, oparams, refs)
+    ctx.count("law_checks")
+    if not again.ok:
+        ctx.fail("%s:re-evaluation-raises:%s" % (op, rk), {"error": repr(again.exc)[:200]})
+    elif arr.digest(numpy.ma.asarray(again.value)) != arr.digest(numpy.ma.asarray(first)):
+        ca, cb = arr.cells(first), arr.cells(again.value)
+        i = [k for k, (x, y) in enumerate(zip(ca, cb)) if x != y][:1]
+        ctx.fail("%s:re-evaluation-on-the-same-inputs-differs:%s" % (op, rk), {"cell": i, "first": [ca[k] for k in i], "again": [cb[k] for k in i], "params": oparams})
 
 
 def _eq(ctx, key, a, b, detail, exact=True):
